@@ -68,6 +68,17 @@ def evaluate(case, obs):
 
     pos = val if kind == "pos" else None
     committed = (case.get("committed") or {}).get(k) if case["cfg"].get("group_id") else None
+    # 'latest' means the end of the log at the moment the lookup was served: when faults delay the reset
+    # past an append, the answer the simulator actually delivered is the expected position
+    latest_answers = set()
+    if reset and case["cfg"]["auto_offset_reset"] == "latest":
+        for a in c.arrivals:
+            if a.key == 2 and a.delivered and a.extra.get("answered"):
+                want = {(t["topic"], p["partition"]): p["timestamp"] for t in a.body["topics"] for p in t["partitions"]}
+                for t in a.extra["answered"]["topics"]:
+                    for p in t["partitions"]:
+                        if p["error"] == 0 and want.get((t["topic"], p["partition"])) == -1:
+                            latest_answers.add(p["offsets"][0] if "offsets" in p else p["offset"])
     # an out-of-range committed offset is the position until the broker reports it out of range
     pre = committed if (committed is not None and reset) else None
     sought = False
@@ -104,6 +115,10 @@ def evaluate(case, obs):
                 continue
             nv = next_visible(pos)
             hi = nv if nv is not None else max(vis_final["end"], pos)
+            if not (pos <= p <= hi) and not sought and p in latest_answers and p >= pos:
+                out.label("latest_reset_served_after_append")
+                pos = p
+                continue
             if not (pos <= p <= hi):
                 out.fail("seek_wins" if sought else "start_position", "wrong_position",
                          {"position": p, "expected": pos, "sought": sought, "kind": kind, "reset": reset,
@@ -134,8 +149,14 @@ def evaluate(case, obs):
                 continue
             first_data_call = False
             for r in recs:
-                established = True
                 nv = next_visible(pos)
+                if nv != r["offset"] and not established and not sought:
+                    alt = [x for x in latest_answers if x >= pos and next_visible(x) == r["offset"]]
+                    if alt:
+                        out.label("latest_reset_served_after_append")
+                        pos = min(alt)
+                        nv = r["offset"]
+                established = True
                 if nv != r["offset"]:
                     out.fail("seek_wins" if sought else "start_position", "wrong_first_record",
                              {"got": r["offset"], "expected": nv, "model_pos": pos, "kind": kind, "reset": reset})
@@ -236,11 +257,16 @@ RACE_TIMES = [0.0, 0.002, 0.004, 0.007, 0.012, 0.03, 0.08, 0.15, 0.25, 0.32, 0.4
 
 
 def race_cases(shard, nshards, stride=1):
-    """A lookup (ListOffsets or OffsetFetch) is delayed by 0.3 s and a seek lands at a swept instant."""
+    """A lookup (ListOffsets, OffsetFetch, or the first Fetch at an out-of-range committed offset) is delayed by
+    0.3 s and a seek lands at a swept instant."""
     i = 0
     for gi, g in enumerate(GRID):
-        for sel in ("list_offsets", "offset_fetch"):
+        for sel in ("list_offsets", "offset_fetch", "fetch"):
             if sel == "offset_fetch" and "group" not in g[3].split("_")[-1] and not g[3].endswith("group"):
+                continue
+            # a delayed first Fetch matters when it will be answered OFFSET_OUT_OF_RANGE (the committed offset is
+            # outside the log): the stale error must not undo a seek that landed meanwhile
+            if sel == "fetch" and not (g[0] in ("below", "beyond") and g[3].endswith("group")):
                 continue
             for t in RACE_TIMES:
                 i += 1
@@ -249,6 +275,26 @@ def race_cases(shard, nshards, stride=1):
                 if i % nshards == shard:
                     yield make_case(g, True, t, 0.6, [{"sel": sel, "k": 0, "act": "delay", "code": 0, "delay": 0.3}],
                                     [0.001], 11, 2.0)
+
+
+LOOKUP_FAULTS = [("offset_fetch", 14), ("offset_fetch", 16), ("list_offsets", 6), ("list_offsets", 3), ("list_offsets", 5),
+                 ("list_offsets", 7), ("find_coordinator", 15)]
+
+
+def lookup_fault_cases(shard, nshards, acts=("error",)):
+    """The first lookup of each kind is answered with each retriable error (or lost): the retry must still
+    establish the position from the committed offset / the policy."""
+    i = 0
+    for g in GRID:
+        grouped = g[3] in ("assign_group", "subscribe_group")
+        for sel, code in LOOKUP_FAULTS:
+            if sel != "list_offsets" and not grouped:
+                continue
+            for act in acts:
+                i += 1
+                if i % nshards == shard:
+                    yield make_case(g, False, 0.0, 0.6, [{"sel": sel, "k": 0, "act": act, "code": code, "delay": 0.05}],
+                                    [0.001], 13, 2.0)
 
 
 def _run_with_initial(case):
@@ -260,5 +306,8 @@ def campaigns(tier):
     return [Campaign("grid", "enum", execute=execute, cases=grid_cases, exhaustive=True, setup=CS.setup),
             Campaign("seek_race", "enum", execute=execute, setup=CS.setup, exhaustive=th,
                      cases=(lambda s, n: race_cases(s, n, 1)) if th else (lambda s, n: race_cases(s, n, 3))),
+            Campaign("lookup_fault", "enum", execute=execute, setup=CS.setup, exhaustive=True,
+                     cases=(lambda s, n: lookup_fault_cases(s, n, ("error", "drop", "no_reply"))) if th
+                     else (lambda s, n: lookup_fault_cases(s, n))),
             Campaign("start_sim", "hyp", execute=execute, strategy=strategy,
                      examples=20000 if th else 1000, setup=CS.setup, max_wall=900 if th else 80, shrink_wall=30)]
